@@ -106,6 +106,18 @@ impl Follower for Builder {
             Entry::Occupied(occupied) => {
                 let sid = *self.stack.last().expect("last on stack");
                 let (rnum, tid) = occupied.remove_entry();
+
+                // a ring closure may not create a self-bond or a second
+                // bond between the same two atoms
+                if sid == tid || self.graph[tid].edges.iter().any(|edge| {
+                    edge.target == Target::Id(sid)
+                }) {
+                    self.errors.push(Error::Join(sid, tid));
+                    self.rid += 1;
+
+                    return
+                }
+
                 let edge = self.graph[tid].edges.iter_mut().find(|edge| {
                     if let Target::Rnum(_, _, test) = &edge.target {
                         test == &rnum
